@@ -35,6 +35,8 @@ type paramsReplay struct {
 	Init    [4]uint64     `json:"init"`
 	Batches []paramsBatch `json:"batches"`
 	Obs     [][4]uint64   `json:"observed"`
+	Probes  [][4]uint64   `json:"validate_probes"`
+	ProbeOK []bool        `json:"validate_accepts"`
 }
 type paramsBatch struct {
 	Tax  [][2]uint64 `json:"tax"`
@@ -104,13 +106,33 @@ func runParams(rng *Rng, n int, st *Stats, param string) ([]string, []any) {
 			hs = append(hs, cTuple(cList(taxes), cNs(pb.Conf), cNs(pb.Min)))
 			obs = append(obs, ptuple(o))
 		}
+		// genesis validation: the real Params.Validate on boundary tuples (network and magic prefix valid)
+		var probes []string
+		for i := 0; i < 12; i++ {
+			t := [4]uint64{[]uint64{0, 1, 1, 6, 20}[r.Intn(5)], []uint64{0, 545, 546, 547, 1000, 100000}[r.Intn(6)],
+				[]uint64{0, 0, 1, 50, 9999, 10000, 10001, 20000, 1 << 40}[r.Intn(9)], []uint64{0, 0, 1, 1000000, 100000000, 100000001, 1 << 50}[r.Intn(7)]}
+			if r.Chance(25) {
+				t = [4]uint64{1 + genU64(r)%50, genU64(r), genU64(r) % 10003, genU64(r) % 100000003}
+			}
+			q := bitcointypes.DefaultParams()
+			q.ConfirmationNumber, q.MinDepositAmount, q.DepositTaxRate, q.MaxDepositTax = t[0], t[1], t[2], t[3]
+			ok := uint64(0)
+			if q.Validate() == nil {
+				ok = 1
+			}
+			st.Count(fmt.Sprintf("genesis-validate:accept=%d", ok))
+			probes = append(probes, ptuple(t))
+			obs = append(obs, ptuple([4]uint64{ok, 0, 0, 0}))
+			rep.Probes = append(rep.Probes, t)
+			rep.ProbeOK = append(rep.ProbeOK, ok == 1)
+		}
 		key := fmt.Sprint(rep.Batches)
 		if !seen[key] {
 			seen[key] = true
 			st.Distinct++
 		}
 		st.Sample(rep)
-		cases = append(cases, cTuple(ptuple(init), cList(hs), cList(obs)))
+		cases = append(cases, cTuple(ptuple(init), cList(hs), cList(probes), cList(obs)))
 		replays = append(replays, rep)
 	}
 	return cases, replays
